@@ -14,6 +14,14 @@ var hostileText = []byte{0x00, ';', '=', ',', '"', ' ', '-', ':', 0xFF}
 // for MIKEY bytes: the payload type numbers, length-like values and sign/limit bytes
 var hostileBin = []byte{0x00, 0x01, 0x02, 0x05, 0x0A, 0x0B, 0x10, 0x14, 0x15, 0x7F, 0x80, 0xFF}
 
+var allBytes = func() []byte {
+	b := make([]byte, 256)
+	for i := range b {
+		b[i] = byte(i)
+	}
+	return b
+}()
+
 type totStats struct {
 	sources, accepted, rejected, orderDiff int64
 	parses                                 atomic.Int64
@@ -90,13 +98,24 @@ func totalityPhase(run *evid.Run, thorough bool, sub map[*codec][]string) *totSt
 		depth = 2
 	}
 	type src struct {
-		c *codec
-		s string
+		c     *codec
+		s     string
+		menu  []byte
+		depth int
 	}
 	var srcs []src
 	for _, c := range allCodecs {
 		for _, s := range sub[c] {
-			srcs = append(srcs, src{c, s})
+			menu := hostileText
+			if c == cMikey {
+				menu = hostileBin
+			}
+			srcs = append(srcs, src{c, s, menu, depth})
+			if c == cMikey {
+				// binary messages: every position also takes EVERY byte value once (count and length
+				// fields whose arithmetic only breaks for particular values)
+				srcs = append(srcs, src{c, s, allBytes, 1})
+			}
 		}
 	}
 	// KeyMgmt carrying truncated / mutated MIKEY bytes (well-formed header text, hostile message)
@@ -140,10 +159,7 @@ func totalityPhase(run *evid.Run, thorough bool, sub map[*codec][]string) *totSt
 	}
 
 	for _, sc := range srcs {
-		menu := hostileText
-		if sc.c == cMikey {
-			menu = hostileBin
-		}
+		menu, depth := sc.menu, sc.depth
 		n := mutantCount(len(sc.s), len(menu), depth)
 		res := make([]uint64, n)
 		isErr := make([]bool, n)
@@ -248,10 +264,7 @@ func totalityPhase(run *evid.Run, thorough bool, sub map[*codec][]string) *totSt
 	if len(srcs) > 0 && run.NeedSample() {
 		for _, i := range []int{0, len(srcs) / 2, len(srcs) - 1} {
 			sc := srcs[i]
-			menu := hostileText
-			if sc.c == cMikey {
-				menu = hostileBin
-			}
+			menu, depth := sc.menu, sc.depth
 			n := mutantCount(len(sc.s), len(menu), depth)
 			m := string(mutant(sc.s, menu, n-1-n/7, nil))
 			_, o, _ := safeParse(sc.c, m)
